@@ -99,7 +99,8 @@ CLAIMED = {
         design="DESIGN.md §4 C10"),
     "C13": dict(
         text="Machine-checked proof (Lean 4, rationals): update_sampling_violation_counter is translated from the Python source on every run "
-             "and gen_update_counter proves that it increments the counter exactly when the mirror's test holds; the online fold and the offline loop of the sampling-violation counter "
+             "and gen_update_counter proves that it increments the counter exactly when the mirror's test holds; so are the bookkeeping statements of online update() / reset() and the gap loop of offline evaluate() "
+             "(gen_clock_tick / _reset / _run / _offline: they are the mirror's Clock.tick, Clock.reset and offlineCounter); the online fold and the offline loop of the sampling-violation counter "
              "count exactly the gaps outside [P(1-tol),P(1+tol)] with P the period in the unit of the time stamps, for time-stamp "
              "lists of any length, and that the robustness values do not depend on the time stamps. Correspondence: counters of "
              "the real online and offline monitors on exactly representable configurations incl. gaps on both boundaries.",
@@ -223,8 +224,12 @@ CLAIMED = {
              "(values on the positive side may only grow, on the negative side only shrink) over well-formed interval lists, by "
              "structural induction. Tie: reported positions of the real explainer vs the mirror on systematic (parent rule x child "
              "rule x polarity) and random formulas, and sufficiency tested directly on the real evaluator under adversarial "
-             "re-assignments of the non-reported positions.",
-        note="Lean kernel + standard axioms; interval_union (merging) is not mirrored, position sets are compared; iff/xor violate the "
+             "re-assignments of the non-reported positions. Translator: the functions of explanations.py (LTL and STL) and the visit methods of "
+             "explainer.py are regenerated as Lean terms on every run; genExpl_explain proves that their run equals the mirror with "
+             "interval_union where the code applies it (24 function equations fn_*), C20Union that the union does not change the reported "
+             "positions, and C20_sufficient_translated_partial states the property on the run of the translated code; the exact interval "
+             "lists of the real explainer are compared with that run.",
+        note="Lean kernel + standard axioms; Explanations.__setitem__ and explain()'s loop over assertions are modelled by hand; iff/xor violate the "
              "property on the real code (known finding F40, excluded by region); since/until/precedes raise in the explainer; tie sampled.",
         technique="Lean 4 proof (monotone invariant with polarity, structural induction) + differential correspondence + adversarial oracle on the real evaluator",
         design="DESIGN.md §4 C20"),
